@@ -53,6 +53,8 @@ pub struct GenCfg {
     pub barrels: Option<Vec<Barrel>>,
     /// Internal triggers at this exact period (BC distance mod 3564); C20.
     pub trigger_period: Option<u16>,
+    /// Permille of internal triggers that deviate from the period (C20).
+    pub period_jitter: u64,
     /// Max pixel-hit words per region in stave mode.
     pub max_hits: usize,
     /// Arbitrary legal status bits in TDT / DDW0 / detector field.
@@ -89,6 +91,7 @@ impl GenCfg {
             merge: *rng.pick(&[Merge::Contiguous, Merge::RoundRobin, Merge::Random]),
             barrels: None,
             trigger_period: None,
+            period_jitter: 0,
             max_hits: rng.range(0, 6) as usize,
             free_status_bits: rng.chance(2, 3),
             frame_plan: Vec::new(),
@@ -484,6 +487,7 @@ impl<'a> LinkGen<'a> {
                     let mut bc = if let (Some(p), true) = (cfg.trigger_period, internal) {
                         // exact period from the previous internal trigger (mod orbit length)
                         match self.last_internal_bc {
+                            Some(_) if self.rng.chance(cfg.period_jitter, 1000) => self.rng.below(3564) as u16,
                             Some(prev) => (prev + p) % 3564,
                             None => self.rng.range(bc_floor as u64, (3563 - remaining) as u64) as u16,
                         }
